@@ -20,6 +20,10 @@ certificate A while signed with key B (same and different key type, A in / not i
 good,bad / bad-signature,good); signed attributes whose messageDigest is right but the signature is over the .SF; signed
 attributes with the digest of other content; declared digest algorithm different from the one signed with; a second,
 corrupted signature block next to a valid one.
+History: every judged case is an explicit history in ONE process - the genuine artefact goes through get_certificate_der
+first (same path), then the substitution values of one fault site in order (structural variants: variant, the genuine
+artefacts of that key/digest with and without signed attributes, the same variant again); replay() re-runs exactly that history, so state carried between calls (e.g. a cache of verified signatures)
+is part of what is judged.
 Oracle: valid artefact -> exactly the signer's DER certificate (get_certificate_der, get_certificates_v1,
 get_signature_names); any fault -> None or an exception, never a certificate (of anyone).  For two-SignerInfo files only
 "never a certificate that does not verify" is judged (which SignerInfos are consulted per minSdk is documented behaviour,
@@ -61,6 +65,7 @@ HEAVY_PARTS_QUICK = 12
 HEAVY_PARTS_THOROUGH = 8
 EIGHT = "8"
 ALL = "255"
+ONE = "1"                       # {b^01}: the full-zip-path binding
 
 
 def heavy_quick(cfg):
@@ -180,6 +185,8 @@ def sites(art):
 def values(orig, alphabet):
     if alphabet == ALL:
         return [v for v in range(256) if v != orig]
+    if alphabet == ONE:
+        return [orig ^ 0x01]
     out = []
     for v in (orig ^ 0x01, orig ^ 0x02, orig ^ 0x40, orig ^ 0x80, 0x00, 0x7F, 0xFF, orig ^ 0xFF):
         if v != orig and v not in out:
@@ -306,6 +313,25 @@ def judge_mut(art, f, a, store, mut, path="fast"):
     return None, o[0] + (":" + o[1] if o[0] == "exc" else "")
 
 
+def site_history(art, f, a, store, field, off, alphabet, path="fast", upto=None):
+    """One judged HISTORY in this process: the genuine artefact is pushed through get_certificate_der first (same path), then
+    every substitution value of this fault site in alphabet order.  Yields (mut, violation | None, reaction class) per value and
+    first ("genuine", reaction).  run_shard and replay() both go through here, so a defect that needs the genuine block to have been
+    seen before (caches, memoisation) shows up identically in a fresh replay process.  upto: stop after this value (replay)."""
+    if path == "fast":
+        g = observe(a, art.p7_name)
+    else:
+        g = full_obs(art)[0]
+    yield "genuine", None, g[0]
+    orig = art.sf[off] if field == "sf" else art.p7[f[field][0] + off]
+    for val in values(orig, alphabet):
+        mut = (field, off, val)
+        r, cls = judge_mut(art, f, a, store, mut, path)
+        yield mut, r, cls
+        if upto is not None and val == upto:
+            return
+
+
 # ------------------------------------------------------------------------------------------------ structural variants
 def flip_signature(si):
     from asn1crypto import cms
@@ -377,8 +403,19 @@ def judge_struct(kind, alg, attrs, minsdk, name):
         return out, "%s|%s" % (o1[0], o2[0])
     builder, exp = variants(kind, alg, attrs)[name]
     art = build_art(cfg, p7_builder=builder)
+    # history: the variant, then the genuine artefact of the same configuration, then the SAME variant bytes again; both
+    # observations of the variant are judged (in a fresh replay process the first one is a cold start)
     o, v1, names = full_obs(art)
+    g = full_obs(build_art(cfg))[0]
+    full_obs(build_art((kind, alg, not attrs, minsdk)))      # the sibling genuine artefact (other signed-attribute setting) too:
+    o2, v12, _ = full_obs(art)                               # its signature is over the bare .SF resp. the attributes
+    if g != ("cert", G.cert_der(kind)):
+        out.append(("valid:%s:%s" % ("signed-attrs" if attrs else "no-attrs", kind),
+                    "%s: the genuine artefact verified between the two runs yields %s" % (tag, g[0])))
     certs = ([o[1]] if o[0] == "cert" else []) + (list(v1) if isinstance(v1, list) else [])
+    certs += ([o2[1]] if o2[0] == "cert" else []) + (list(v12) if isinstance(v12, list) else [])
+    if exp[0] == "exact" and (o2, v12) != (o, v1):
+        out.append((key, "%s: the same file gave %s before and %s after the genuine artefact was verified" % (tag, o[0], o2[0])))
     if exp[0] == "exact":
         want = G.cert_der(exp[1])
         if o != ("cert", want) or v1 != [want]:
@@ -463,33 +500,35 @@ def run_shard(ctx, shard):
         return acc
     if shard[0] == "bind":
         for field, off in s:
-            orig = art.sf[off] if field == "sf" else art.p7[f[field][0] + off]
-            mut = (field, off, orig ^ 0x01)
-            r1, c1 = judge_mut(art, f, a, store, mut, "fast")
-            r2, c2 = judge_mut(art, f, a, store, mut, "full")
+            (_, _, g1), (mut, r1, c1) = list(site_history(art, f, a, store, field, off, ONE, "fast"))
+            (_, _, g2), (_, r2, c2) = list(site_history(art, f, a, store, field, off, ONE, "full"))
+            if g1 != "cert" or g2 != "cert":
+                acc.count("genuine_rejected_inside_history")
             acc.case(outcome=("bind", field, c2))
             acc.nt_disjoint += 1
             acc.count("full_path_mutants")
             if (c1 == "cert") != (c2 == "cert"):
                 acc.harness_error("in-memory seam and zip path disagree on %s %r: fast=%s full=%s" % (describe(art), mut, c1, c2))
             if r2:
-                acc.violation(r2[0], dict(wbase, mut=list(mut), path="full"), r2[1])
+                acc.violation(r2[0], dict(wbase, mut=list(mut), path="full", alpha=ONE), r2[1])
         return acc
     _, _, part, nparts, alpha_sf, alpha_sig = shard
     for field, off in s[part::nparts]:
-        orig = art.sf[off] if field == "sf" else art.p7[f[field][0] + off]
         alphabet = {"sf": alpha_sf, "signature": alpha_sig}.get(field, EIGHT)
         acc.count("sites_%s_x%s" % (field, alphabet))
-        for val in values(orig, alphabet):
-            mut = (field, off, val)
+        for mut, r, cls in site_history(art, f, a, store, field, off, alphabet, "fast"):
+            if mut == "genuine":
+                acc.count("histories_genuine_first")
+                if cls != "cert":
+                    acc.count("genuine_rejected_inside_history")
+                continue
             acc.count("mutants_%s_x%s" % (field, alphabet))
-            r, cls = judge_mut(art, f, a, store, mut, "fast")
             acc.n += 1
             acc.nt_disjoint += 1
             acc.outcomes.add(hash((sub_field(f, mut), cls)))
             acc.count("mutants_" + field)
             if r:
-                acc.violation(r[0], dict(wbase, mut=list(mut), path="fast"), r[1])
+                acc.violation(r[0], dict(wbase, mut=list(mut), path="fast", alpha=alphabet), r[1])
     if part == 0 and heavy_quick(cfg):
         acc.sample({"artefact": describe(art), "mutant": ["sf", 0, art.sf[0] ^ 1], "sf_bytes": len(art.sf), "pkcs7_bytes": len(art.p7)})
     return acc
@@ -507,14 +546,23 @@ def replay(ctx, w):
         return "\n".join("%s: %s" % r for r in res) if res else None
     _, f = sites(art)
     a, store = fast_apk(art)
-    r, _ = judge_mut(art, f, a, store, tuple(w["mut"]), w.get("path", "fast"))
-    return r[1] if r else None
+    field, off, val = w["mut"]
+    last = None
+    for mut, r, _ in site_history(art, f, a, store, field, off, w.get("alpha", ONE), w.get("path", "fast"), upto=val):
+        last = (mut, r)
+    if last is None or last[0] != (field, off, val):       # value not in the recorded alphabet: judge it alone after the genuine run
+        r, _ = judge_mut(art, f, a, store, (field, off, val), w.get("path", "fast"))
+        return r[1] if r else None
+    return last[1][1] if last[1] else None
 
 
 def finalize(ctx, acc):
     n = len(configs())
     if not acc.extra.get("valid_artefacts_accepted"):
         acc.harness_error("vacuous: no valid artefact was accepted - every fault verdict would be trivially 'no certificate'")
+    if acc.extra.get("genuine_rejected_inside_history"):
+        acc.note("the genuine artefact was rejected %d times inside a history (after being accepted at shard start)"
+                 % acc.extra["genuine_rejected_inside_history"])
     for k in ("mutants_sf", "mutants_signature", "mutants_signed-attrs", "mutants_sid", "full_path_mutants", "structural_variants"):
         if not acc.extra.get(k) and not acc.extra.get("shards_skipped_base_rejected"):
             acc.harness_error("vacuous: counter %s is zero" % k)
